@@ -5,7 +5,7 @@ compilers accept?  Used to show that a proposed type-checker fix does not newly 
   NLVERIF_REPO=<tree> tools/c05_corpus.py out.json      (tree defaults to /repo; it is only read)
   tools/c05_corpus.py --compare before.json after.json
 
-The programs are compiled inside a scratch copy of the tree (imports and module builds are relative to the
+The programs are compiled inside a scratch copy of /repo (imports and module builds are relative to the
 working directory), nanoc with NANO_CC=/bin/true (front end + shadow tests, no C compiler), nano_virt with
 --emit-nvm.  'accepted' = exit status 0.
 """
@@ -46,7 +46,9 @@ def main():
     from nlv import build
     from nlv.run import run as sh, pmap, Scratch
     fl = build.get("plain")
-    repo = build.REPO
+    # the corpus (and the prebuilt module artifacts that live untracked in /repo) always comes from /repo; only the
+    # compilers come from NLVERIF_REPO (patches under test touch src/ only)
+    repo = "/repo"
     with Scratch("c05corpus") as sc:
         work = os.path.join(sc.path, "tree")
         subprocess.check_call(["rsync", "-a", "--exclude=/.git", "--exclude=/obj", "--exclude=/bin", "--exclude=/build",
